@@ -165,7 +165,13 @@ def run_case(case, ctx):
     atol = case["atol"]
     if len(rep["elements"]) == 0:
         return
-    P, R = patterns.to_atoms(pat), replcase.rep_to_atoms(rep)
+    # patterns loaded from a CIF / LAMMPS file carry the box they were drawn in; it says nothing about the structure's lattice
+    pkw = {}
+    if case["s"] % 5 == 3:
+        box = np.diag(rng.uniform(5.0, 7.5, 3)) if rng.integers(3) else np.array(S.cell, float) * 0.5
+        pkw = {"cell": box}
+        st.count("replacements_whose_patterns_carry_their_own_cell")
+    P, R = patterns.to_atoms(pat, **({"cell": pkw["cell"] * 1.5} if pkw and rng.integers(2) else {})), replcase.rep_to_atoms(rep, **pkw)
     f = case.get("fraction", 1.0)
     events.SCHEDULE["sample"] = case.get("sample", "real")
     kw = {} if f >= 1.0 else {"replace_fraction": f}
@@ -296,6 +302,8 @@ def requirements(stats, tier):
     if stats.get("second_replacements_judged") < (60 if tier == "quick" else 8000) or stats.nseen("history") < 3:
         need.append("second replacements on a returned structure whose cell was changed: %d judged, histories %s" %
                     (stats.get("second_replacements_judged"), sorted(stats.sets.get("history", []))))
+    if stats.get("replacements_whose_patterns_carry_their_own_cell") < (50 if tier == "quick" else 8000):
+        need.append("replacements whose patterns carry a cell of their own: %d" % stats.get("replacements_whose_patterns_carry_their_own_cell"))
     if stats.get("joint_motion_relations_checked") < (40 if tier == "quick" else 6000):
         need.append("joint-motion relation checked only %d times" % stats.get("joint_motion_relations_checked"))
     return need
